@@ -1,4 +1,4 @@
-"""C18 in-place rewrites are all-or-nothing (knut format; natefinch/atomic.WriteFile)"""
+"""C18 in-place rewrites are all-or-nothing (knut format, knut infer --inplace; natefinch/atomic.WriteFile)"""
 PID = "C18"
 THEOREM_FILE = "Properties/C18.v"
 NEEDS_KNUT = True
@@ -11,10 +11,16 @@ RULE = ("groups of 1-4 generated journal files in random unformatted layouts (co
         "every byte offset 0..len+120 of 200 single files; GOMAXPROCS default, 1 and 2 in turn), three runs per multi-file "
         "group (GOMAXPROCS 1, 2, 16) with one more file whose 255-byte name makes its temporary file impossible to create "
         "(a failure of ONE of several files: the others must end new), and a run as an unprivileged user in a directory "
-        "without write permission for every 8th group.  After every run each file is classified old | new | other against the "
-        "input bytes and the expected formatted bytes (computed in-process with syntax.ParseFile + syntax.FormatFile), "
+        "without write permission for every 8th group.  Then `knut infer --inplace -a <placeholder> -t training target` on "
+        "generated (training file, target file with placeholder accounts) pairs as the C15 generator makes them (a few "
+        "unparseable or empty, every fourth target its own training file, every third target reached through a symbolic "
+        "link): the expected new contents are the stdout of the same command without --inplace, run beforehand on the same "
+        "files; one strace run and RLIMIT_FSIZE runs at 0, 1 and random offsets per pair (thorough: every byte offset of 25 short "
+        "targets); the training file must stay as it is and no operation may touch it.  After every run each file is "
+        "classified old | new | other against the "
+        "input bytes and the expected new bytes (format: computed in-process with syntax.ParseFile + syntax.FormatFile), "
         "left-over directory entries are counted.  Non-trivial: a fault run whose limit is at least 1 byte and below the "
-        "formatted size of some file (the write is cut short after >= 1 byte), or a strace run; distinct by input.")
+        "new size of some file (the write is cut short after >= 1 byte), or a strace run; distinct by input.")
 
 TRUSTED_BASE = [
     "Coq 8.16.1 kernel",
@@ -56,11 +62,44 @@ def nontrivial(c):
         return False
 
 
+def _unesc(t):
+    """inverse of the harness's vesc, to bytes"""
+    out, i = [], 0
+    m = {"n": "\n", "t": "\t", "r": "\r", "p": "|", "s": ";"}
+    while i < len(t):
+        if t[i] == "\\" and i + 1 < len(t):
+            out.append(m.get(t[i + 1], t[i + 1]))
+            i += 2
+        else:
+            out.append(t[i])
+            i += 1
+    return "".join(out).encode("utf-8", "surrogateescape")
+
+
 def distribution(cases):
     d = {"strace_runs": 0, "rlimit_runs": 0, "rodir_runs": 0, "longname_runs": 0, "gomaxprocs": {}, "files": 0, "unparseable_files": 0,
-         "final_old": 0, "final_new": 0, "final_other": 0, "exit": {}, "cut_after_ge1_byte": 0}
+         "final_old": 0, "final_new": 0, "final_other": 0, "exit": {}, "cut_after_ge1_byte": 0,
+         "infer_inplace": {"strace_runs": 0, "rlimit_runs": 0, "target_is_training_file": 0, "through_symlink": 0,
+                           "command_fails_without_inplace": 0, "target_new": 0, "target_old": 0, "target_other": 0,
+                           "new_differs_from_old": 0, "cut_after_ge1_byte": 0, "exit": {}}}
     for c in cases:
         mode = c.input.split(";")[0].split("=")[1]
+        if ";cmd=infer;" in c.input.split(";files=")[0] + ";":
+            di = d["infer_inplace"]
+            di["strace_runs" if mode == "strace" else "rlimit_runs"] += 1
+            fl = c.input.split(";files=")[1].split("|")
+            di["target_is_training_file"] += len(fl) == 2
+            di["through_symlink"] += ";link=1;" in c.input.split(";files=")[0] + ";"
+            hd, _, det = (c.observed or "").partition(" ## ")
+            okv = dict(f.split("=", 1) for f in hd.split(" ") if "=" in f)
+            di["exit"][okv.get("exit", "?")] = di["exit"].get(okv.get("exit", "?"), 0) + 1
+            tcls = okv.get("finals", "").split(",")[-1].split(":")[-1]
+            di["target_" + (tcls if tcls in ("old", "new") else "other")] += 1
+            tdet = det.split("|")[-1].split("^")
+            if len(tdet) >= 3:
+                di["command_fails_without_inplace"] += tdet[1] != "1"
+                di["new_differs_from_old"] += tdet[1] == "1" and bytes.fromhex(tdet[2]) != _unesc(fl[-1])
+            di["cut_after_ge1_byte"] += c.op == "C18.fault" and nontrivial(c)
         d[{"strace": "strace_runs", "rlimit": "rlimit_runs", "rodir": "rodir_runs", "longname": "longname_runs"}.get(mode, "rlimit_runs")] += 1
         pr = ([f.split("=")[1] for f in c.input.split(";files=")[0].split(";") if f.startswith("procs=")] or ["default"])[0]
         d["gomaxprocs"][pr] = d["gomaxprocs"].get(pr, 0) + 1
@@ -80,16 +119,23 @@ def distribution(cases):
 
 
 TECHNIQUE = ("Coq proof about an executable model of the directory and of the write-temp-then-rename protocol (all traces "
-             "under a failure at any operation and any short write), with the extracted trace predicate run on strace "
-             "traces of the real binary and fault injection through RLIMIT_FSIZE at byte offsets and an unwritable directory")
+             "under a failure at any operation and any short write, all interleavings of several files' traces), with the "
+             "extracted trace predicate run on strace traces of the real binary (format and infer --inplace) and fault "
+             "injection through RLIMIT_FSIZE at byte offsets and an unwritable directory")
 LEVEL_TEXT = ("Theorems C18_safe (a trace accepted by safe_trace keeps the target in {old,new} after every prefix), C18_protocol "
               "(every trace of atomic.WriteFile's protocol, for a failure at any operation, any number of bytes written and any "
               "splitting into short writes, is accepted, installs new iff the rename happened iff no fault, and leaves no temp "
-              "file), C18_parse_error_no_ops and C18_files_independent (frame property per operation and per protocol run) are "
+              "file), C18_parse_error_no_ops, C18_files_independent (frame property per operation and per protocol run) and "
+              "C18_interleaving (the concurrent command: for every list of jobs with pairwise distinct targets and temporaries, "
+              "every interleaving of their protocol traces - any fault per file, unparseable files included - and every prefix "
+              "length, every target holds its old or its complete new contents; after the whole schedule it holds new iff the "
+              "file parsed and nothing failed, old otherwise, and no temporary file exists; C18_interleaving_any_dir: the same in "
+              "a directory with other files, which are never touched - the training file of `infer --inplace`) are "
               "proved in Coq, closed under the global context.  The tie to the binary: safe_trace (extracted) accepts the mapped "
-              "strace trace of every run, and under injected faults every file ends bit-identical to old or to the expected new.")
-LEVEL_NOTE = ("Partial: atomicity of rename(2) and the syscall-to-operation mapping are assumptions; the interleaving theorem "
-              "for several files formatted concurrently is stated as a per-operation frame property, the induction over "
-              "interleavings is not carried out; `infer --inplace` and `fetch` use the same atomic.WriteFile call but are not "
-              "exercised by this check.  Trusted: Coq kernel, extraction, drv_c18.ml, harness c18.go, strace, the kernel's "
+              "strace trace of every run of `knut format` and of `knut infer --inplace`, and under injected faults every file "
+              "ends bit-identical to old or to the expected new.")
+LEVEL_NOTE = ("Partial: atomicity of rename(2) and the syscall-to-operation mapping are assumptions; that the goroutines' system "
+              "calls reach the directory in SOME total order (an interleaving) is the model of concurrency assumed by "
+              "C18_interleaving; `fetch` uses the same atomic.WriteFile call but is not exercised by this check (it needs the "
+              "network).  Trusted: Coq kernel, extraction, drv_c18.ml, harness c18.go, strace, the kernel's "
               "RLIMIT_FSIZE behaviour.")
